@@ -463,7 +463,8 @@ class Engine:
         k = op["op"]
         fn = getattr(self, "_do_" + k, None)
         if fn is None:
-            return "skipped:unknown-op", []
+            from .core import HarnessError
+            raise HarnessError("engine %s has no interpreter for operation %r" % (NAME, k))
         ids = [op[x] for x in ("h", "other") if op.get(x)]
         if any(i not in world.handles for i in ids):
             world.last_relation = "skip"
